@@ -5,12 +5,12 @@ id=$(basename $1); dir=$(cd $1 && pwd)
 S=$(mktemp -d /tmp/seedverify.XXXX)
 git -C /repo archive HEAD | tar -x -C $S
 cd $S
-/venv/bin/python demo_$id.py >/dev/null 2>&1; true
-cp $dir/demo_$id.py . 
-/venv/bin/python demo_$id.py > out_clean.txt 2>&1; rc_clean=$?
+demo=$(basename $(ls $dir/demo_*.py | head -1))
+cp $dir/$demo .
+PYTHONPATH=$S /venv/bin/python $demo > out_clean.txt 2>&1; rc_clean=$?
 if ! git apply --check $dir/patch.diff 2>/dev/null && ! patch -p1 --dry-run < $dir/patch.diff >/dev/null 2>&1; then echo "$id: PATCH-DOES-NOT-APPLY"; rm -rf $S; exit 1; fi
 patch -p1 -s < $dir/patch.diff
 tests=$(/venv/bin/python -m pytest -q -p no:cacheprovider tests 2>&1 | tail -1)
-/venv/bin/python demo_$id.py > out_mut.txt 2>&1; rc_mut=$?
+PYTHONPATH=$S /venv/bin/python $demo > out_mut.txt 2>&1; rc_mut=$?
 echo "$id: demo clean rc=$rc_clean, tests with patch: $tests, demo mutated rc=$rc_mut"
 cd /; rm -rf $S
